@@ -122,6 +122,79 @@ pub fn check_small(c: &SmallCase, info: &mut CaseInfo) -> Result<(), String> {
     Ok(())
 }
 
+/// Fills of more than 2^26 pixels (65535x65535 external models): the frame memory of such a window is
+/// not simulated cell by cell; the Panel keeps the window, the pixel count and the colours of the
+/// burst. Placement oracle: the burst's window, mapped through the controller's addressing, is the
+/// geometric image of the visible rectangle; it is filled exactly once (no wrap) in the drawn colour.
+pub fn check_giant(c: &ProgCase, info: &mut CaseInfo) -> Result<(), String> {
+    use crate::exec::op_name;
+    use crate::oracle::to_phys;
+    info.nontrivial = true;
+    let mut s = Session::start(&c.cfg)?;
+    for op in &c.ops {
+        let pulls = std::cell::Cell::new(0u64);
+        s.dut.run(op, &pulls).map_err(|e| format!("{} failed: {:?}", op_name(op), e))?;
+        let mut wb = s.w.borrow_mut();
+        let bursts = wb.panel.take_bursts();
+        wb.panel.take_trace();
+        if let Some(e) = wb.panel.take_errors().first() {
+            return Err(format!("controller saw malformed traffic: {}", e));
+        }
+        if let Some(e) = wb.decode_errors.first() {
+            return Err(format!("bus decode error: {}", e));
+        }
+        let Some((x0, y0, x1, y1)) = super::c20::giant_target(&c.cfg, s.orient, op) else {
+            return Err("HARNESS: giant-fill case with an empty or unsupported call".into());
+        };
+        let area = (x1 - x0 + 1) as u64 * (y1 - y0 + 1) as u64;
+        let (a, b) = (to_phys(&c.cfg, s.orient, x0, y0), to_phys(&c.cfg, s.orient, x1, y1));
+        let want = (a.0.min(b.0), a.1.min(b.1), a.0.max(b.0), a.1.max(b.1));
+        let colour = colour_of(seed_of(op), 0, s.bits);
+        let filled: Vec<_> = bursts.iter().filter(|b| b.pixels > 0).collect();
+        let mut covered = 0u64;
+        for b in &filled {
+            let (p, q) = match (wb.panel.cell(b.sc as u32, b.sp as u32), wb.panel.cell(b.ec as u32, b.ep as u32)) {
+                (Some(p), Some(q)) => (p, q),
+                _ => return Err(format!("{}: window cols {}..={} pages {}..={} lies outside the controller framebuffer", op_name(op), b.sc, b.ec, b.sp, b.ep)),
+            };
+            let got = (p.0.min(q.0), p.1.min(q.1), p.0.max(q.0), p.1.max(q.1));
+            // every burst must stay inside the target and be filled exactly once; one burst is what the
+            // driver does today, several disjoint ones would need a cell map and are not accepted blindly
+            if filled.len() == 1 && got != want {
+                return Err(format!(
+                    "{} of logical ({},{})..=({},{}) under {:?}: the burst fills physical cells {:?}, the geometric image is {:?}",
+                    op_name(op), x0, y0, x1, y1, s.orient, got, want
+                ));
+            }
+            if b.pixels != b.area() {
+                return Err(format!("{}: burst of {} pixels into a window of {} cells (cells left unpainted or the write pointer wrapped)", op_name(op), b.pixels, b.area()));
+            }
+            if b.bulk_mixed || b.bulk_colour.map_or(false, |cc| cc != colour) {
+                return Err(format!("{}: the fill arrives as colour {:x?} (mixed: {}), drawn {:#x}", op_name(op), b.bulk_colour, b.bulk_mixed, colour));
+            }
+            covered += b.pixels;
+        }
+        if filled.len() != 1 {
+            return Err(format!("{}: {} pixel bursts (expected one burst of {} pixels; {} pixels arrived)", op_name(op), filled.len(), area, covered));
+        }
+        if wb.panel.oob_addr != 0 {
+            return Err(format!("{} pixel writes addressed memory outside the framebuffer", wb.panel.oob_addr));
+        }
+    }
+    Ok(())
+}
+
+fn seed_of(op: &DrawOp) -> u32 {
+    match op {
+        DrawOp::SetPixel { seed, .. }
+        | DrawOp::SetPixels { seed, .. }
+        | DrawOp::DrawIter { seed, .. }
+        | DrawOp::FillContiguous { seed, .. }
+        | DrawOp::FillSolid { seed, .. }
+        | DrawOp::Clear { seed } => *seed,
+    }
+}
+
 pub fn run(ctx: &Ctx) -> Report {
     let mut rep = Report::new("C01", "exploration");
     rep.assumptions = vec![
@@ -154,6 +227,14 @@ pub fn run(ctx: &Ctx) -> Report {
     run_generated(&mut sec, ctx.seed, n, ctx.workers, || strategy(gen::ConfigMenu::all_transports(), 8), check, sig);
     rep.sections.push(sec);
 
+    let mut sec = Section::new(
+        &format!("giant-fills[{}]", ctx.variant),
+        "clear / fill_solid of more than 2^26 pixels on the 65535x65535 external models (4 windows x 8 orientations x plain and single-word colours, full and inner rectangles): the burst's window maps through the controller's addressing onto the geometric image of the visible rectangle and is filled exactly once in the drawn colour (frame memory of such windows is book-kept, not simulated per cell)",
+    );
+    sec.exhaustive = true;
+    run_enumerated(&mut sec, super::c20::giant_cases(), ctx.workers, check_giant, sig);
+    rep.sections.push(sec);
+
     if ctx.tier == Tier::Thorough {
         let mut sec = Section::new(
             &format!("programs-pin-level[{}]", ctx.variant),
@@ -172,6 +253,8 @@ pub fn replay(section: &str, case: &Value) -> Result<(), String> {
     let mut info = CaseInfo::default();
     if section.starts_with("small-scope") {
         check_small(&de::<SmallCase>(case)?, &mut info)
+    } else if section.starts_with("giant-fills") {
+        check_giant(&de::<ProgCase>(case)?, &mut info)
     } else {
         check(&de::<ProgCase>(case)?, &mut info)
     }
